@@ -112,10 +112,57 @@ def observe_csv_file(case, workdir):
         lines = body.split('\r\n')
         data = [l + '\r\n' for l in lines[:-1]] if body.endswith('\r\n') else None
         rows = [[a, b, repr(v)] for a, b, v in c.items()]
-        return {'data_lines': data, 'rows': [['term_a', 'term_b', 'ic_mica']] + rows, 'raw_head': raw[:200]}
+        return {'data_lines': data, 'rows': [['term_a', 'term_b', 'ic_mica']] + rows, 'raw_head': raw[:200],
+                # the whole file against the model's to_csv_text (the description line is a constant of to_csv)
+                'text': raw, 'description': raw[1:raw.index('\n')] if raw.startswith('#') and '\n' in raw else None,
+                'meta_str': c.metadata_to_str(), 'items': rows}
     finally:
         if os.path.exists(path):
             os.remove(path)
+
+
+def float_table(text):
+    """the float oracle of the model: for every cell text that may be looked up, does float() accept it, is the value
+    negative, and its float.hex()"""
+    import csv
+    import io
+    uni = text.replace('\r\n', '\n').replace('\r', '\n')
+    toks = set()
+    try:
+        for row in csv.reader(io.StringIO(uni, newline='')):
+            toks.update(row)
+    except Exception:
+        pass
+    for line in uni.split('\n'):
+        toks.update(line.split(','))
+    table = []
+    for t in sorted(toks):
+        try:
+            v = float(t)
+            table.append([t, True, bool(v < 0), v.hex()])
+        except ValueError:
+            table.append([t, False, False, ''])
+    return table
+
+
+def observe_csv_text(case, workdir):
+    """SimilarityContainer.from_csv on an arbitrary (well-formed, mutated or malformed) file"""
+    path = os.path.join(workdir, 'ct%d.csv' % os.getpid())
+    text = case['text']
+    out = {'table': float_table(text)}
+    try:
+        with open(path, 'w', newline='', encoding='utf-8') as fh:
+            fh.write(text)
+        try:
+            c = SimilarityContainer.from_csv(path)
+            out['ok'] = {'meta': sorted([k, v] for k, v in c.metadata.items()), 'items': sorted([a, b, hx(v)] for a, b, v in c.items())}
+        except Exception as e:
+            out['err'] = exn_name(e)
+            out['msg'] = str(e)[:120]
+    finally:
+        if os.path.exists(path):
+            os.remove(path)
+    return out
 
 
 def observe(payload):
@@ -130,6 +177,8 @@ def observe(payload):
                 res.append(observe_csv(case))
             elif case['kind'] == 'csv_file':
                 res.append(observe_csv_file(case, payload['workdir']))
+            elif case['kind'] == 'csv_text':
+                res.append(observe_csv_text(case, payload['workdir']))
             else:
                 res.append(observe_meta_from_str(case))
         except Exception as e:
